@@ -679,7 +679,12 @@ func (sa *Safe) analyzeFuncSel(fr *frame, args []AVal, st0 *State, sel *selector
 			}
 			visits[tnode]++
 			if visits[tnode] > 4 && isLoopHead(to) {
-				j = widenState(old, j)
+				if visits[tnode] <= 12 && len(phiAtoms) > 0 {
+					// first the loop's own header variables only; everything after a few more rounds
+					j = widenStateOnly(old, j, phiAtoms)
+				} else {
+					j = widenState(old, j)
+				}
 			}
 			if !equalStates(old, j) {
 				in[tnode] = j
